@@ -932,7 +932,7 @@ impl Property for C06 {
     const ID: &'static str = "C06";
     type Case = Case;
     fn rule() -> String {
-        "one case = (scalar text, style, tag, target type); the oracle evaluates it under all 16 combinations of strict_booleans / no_schema / legacy_octal_numbers / ignore_binary_tag_for_string, as a root scalar and as the two items of a block sequence (32 cells per case, counted in classes[\"cells ...\"]). Generation: (a) core corpus (integer notations, YAML 1.1 boolean table with case variants, null forms, float forms incl. .inf/.nan, overflow and subnormal boundaries, chars, strings, base64 look-alikes) x every representable style x 9 tags x 20 targets, exhaustive; (b) every integer width boundary 2^(w-1), 2^w (w=8..128) -2..+1 in decimal/0x/0o/0b/legacy-octal/leading-zero spellings x sign x separator and prefix-case variants, plain with no tag and !!int x 20 targets exhaustive plus rotating style/tag combinations (thorough: all); (c) all strings of length <= 6 over {A,B,E,Q,/,+,=,space,newline} as !!binary payloads; all byte arrays of length <= 2 encoded by the harness; random longer arrays with wrapping and damage; (d) random numeric-looking tokens from a grammar. Oracle: three-valued reference model written from README/rustdoc (big-integer accumulation then range test; bool/null/float tables; Rust's str::parse as the IEEE oracle; independent strict base64 decoder) + position independence + per-option metamorphic relations. Non-trivial: the token's integer reading lies within 2 of a width boundary 2^7..2^128, or the model's verdict differs between two option vectors. distinct = distinct (text, style, tag, target).".into()
+        "one case = (scalar text, style, tag, target type); the oracle evaluates it under all 16 combinations of strict_booleans / no_schema / legacy_octal_numbers / ignore_binary_tag_for_string, as a root scalar and as the two items of a block sequence (32 cells per case, counted in classes[\"cells ...\"]). Generation: (a) core corpus (integer notations, YAML 1.1 boolean table with case variants, null forms, float forms incl. .inf/.nan, overflow and subnormal boundaries, chars, strings, base64 look-alikes) x every representable style x 9 tags x 22 targets (Vec<u8> and Option<Vec<u8>> go through deserialize_seq), exhaustive; (b) every integer width boundary 2^(w-1), 2^w (w=8..128) -2..+1 in decimal/0x/0o/0b/legacy-octal/leading-zero spellings x sign x separator and prefix-case variants, plain with no tag and !!int x 20 targets exhaustive plus rotating style/tag combinations (thorough: all); (c) all strings of length <= 6 over {A,B,E,Q,/,+,=,space,newline} as !!binary payloads; all byte arrays of length <= 2 encoded by the harness; random longer arrays with wrapping and damage; (d) random numeric-looking tokens from a grammar. Oracle: three-valued reference model written from README/rustdoc (big-integer accumulation then range test; bool/null/float tables; Rust's str::parse as the IEEE oracle; independent strict base64 decoder) + position independence + per-option metamorphic relations. Non-trivial: the token's integer reading lies within 2 of a width boundary 2^7..2^128, or the model's verdict differs between two option vectors. distinct = distinct (text, style, tag, target).".into()
     }
     fn assumptions() -> Vec<String> {
         vec![
